@@ -233,6 +233,10 @@ def _is_set_expr(cx, f, e) -> bool:
 
 def _premises(cx):
     from .common import include_premises
+    # what the framework draws from: the candidate lists are C13's exact filters over the model's own agents (a filter that reads
+    # class-level state other models can change hands the same seed different candidates)
+    include_premises(cx, ['C13'], 'the candidates of a random pick / shuffle are a function of this model\'s state only',
+                     only=lambda o: 'exact-template-and-tag-filter' in o.key or o.rule == 'R-FWD')
     keep = ('fresh-model-per-run', 'one-score-of-own-model-per-repetition', 'no-module-level-state', 'work-list-is-product-times-repetitions',
             'evaluates-the-built-product-list', 'pool-arm-is-an-ordered-map')
     include_premises(cx, ['C15', 'C16'], 'a run is reproducible from its seed, in whatever process it is executed, only if every run and '
